@@ -270,10 +270,10 @@ Qed.
 
 (* ------------------------------------------------------------------ datagram unpacking *)
 
-Arguments unpack_pktlen : simpl never.
-Arguments unpack_hsize : simpl never.
-Arguments firstn : simpl never.
-Arguments skipn : simpl never.
+#[local] Arguments unpack_pktlen : simpl never.
+#[local] Arguments unpack_hsize : simpl never.
+#[local] Arguments firstn : simpl never.
+#[local] Arguments skipn : simpl never.
 
 Lemma hd0_firstn n b : (0 < n)%nat -> hd0 (firstn n b) = hd0 b.
 Proof. intro H. destruct n; [lia|]. destruct b; reflexivity. Qed.
